@@ -7,6 +7,68 @@ from db import AnalysisBroken
 BITS = 'TSGF'
 
 
+def rule_zero_division(chk, db, cfgname):
+    """C01.3 (all numbers are finite): x / d where d is a local initialised to 0 and only ever accumulated into can be
+    0 / 0 = NaN unless a test of d dominates the division"""
+    import cfg as C
+    import tree as T
+    n = 0
+    for f in db.functions.values():
+        if not f.get('blocks') or not f['file'].startswith('src/'):
+            continue
+        acc = {}
+        for b in f['blocks']:
+            for e in b['ev']:
+                if e.get('k') == 'decl':
+                    for v in e['vars']:
+                        i = v.get('init')
+                        if i is None:
+                            continue
+                        i0 = T.strip_copy(i)
+                        t = db.T(f, v['t'])
+                        if i0.get('k') in ('int', 'flt') and i0.get('v') in (0, 0.0) and t.get('k') in ('f', 'i') \
+                                and not t.get('ref'):
+                            acc[v['n']] = True
+        if not acc:
+            continue
+        for b in f['blocks']:
+            for e in b['ev']:
+                if e.get('k') == 'bin' and e.get('op') == '=':
+                    l = T.strip(e['l'])
+                    if l.get('k') == 'var' and l['n'] in acc:
+                        acc[l['n']] = False      # plainly assigned: not a pure accumulator
+        acc = {k for k, v in acc.items() if v}
+        if not acc:
+            continue
+        g = None
+        for b in f['blocks']:
+            for e in b['ev']:
+                if not (e.get('k') == 'bin' and e.get('op') in ('/', '/=')):
+                    continue
+                r = T.strip_copy(e['r'])
+                if not (r.get('k') == 'var' and r['n'] in acc and db.T(f, e).get('k') == 'f'):
+                    continue
+                n += 1
+                g = g or C.Cfg(f)
+                dom = g.dominators().get(b['id'], set())
+                guarded = False
+                for d in dom:
+                    if d == b['id']:
+                        continue
+                    c, _ = C.branch_cond(g.blocks[d])
+                    if c is not None and any(isinstance(y, dict) and y.get('k') == 'var' and y.get('n') == r['n']
+                                             for y in T.walk(c)):
+                        guarded = True
+                chk.obligation(guarded, {'function': f['name'], 'line': e.get('ln'), 'division': T.pstr(e)[:50],
+                                         'accumulator': r['n'], 'guarded by a test of it': guarded})
+                if not guarded:
+                    chk.violation('C01.3', f, 'division by zero-initialised accumulator %s' % r['n'],
+                                  '%s divides by %s, a local that starts at 0 and is only conditionally incremented, '
+                                  'with no test of it before the division: 0/0 gives NaN, which flows into the mesh '
+                                  'data' % (T.pstr(e)[:50], r['n']), line=e.get('ln'), cfg=cfgname)
+    chk.count('c01.3.accumulator_divisions', n)
+
+
 def main(chk, tier):
     import db as D
     configs = ['seq', 'par'] if tier == 'quick' else ['seq', 'par', 'seq-debug', 'par-debug']
@@ -18,6 +80,8 @@ def main(chk, tier):
     chk.rule('C01.2', 'the effects the typestate attributes to its primitives hold in their bodies: SortGeometry '
              'calls SortVerts and SortFaces on every normal path, MakeEmpty clears positions and halfedges, '
              'RemoveUnreferencedVerts NaN-marks vertices, CalculateBBox turns a non-finite box into MakeEmpty')
+    chk.rule('C01.3', 'no floating-point division by a zero-initialised, only-accumulated local without a dominating '
+             'test of that local (0/0 = NaN would enter the mesh data; "all numbers are finite")')
     for cfgname in configs:
         db = D.load(cfgname)
         chk.configs.append(cfgname)
@@ -27,6 +91,7 @@ def main(chk, tier):
         res, reqv = e.run()
         escape.report(chk, e, res, reqv, 'C01.1', cfgname, BITS)
         contracts.verify(chk, db, cfgname, 'C01.2', BITS)
+        rule_zero_division(chk, db, cfgname)
         for ex in tab['exempt_generators']:
             chk.count('c01.1.exempt_generators')
     n = len(configs)
